@@ -7,7 +7,6 @@
  * bit3 bounded_size, bit4 fixed_shape. It is asserted, so the evidence lists per view type what was actually checked; a type with
  * MASK 0 reports nothing and counts as not covered. No capacity hook may fire (obligation from harness.h). */
 #include "harness.h"
-#include "C11_traits.h"
 #include "C10_dom.h"
 #define CELLS 16
 #define NA ((u64)-1)
@@ -30,12 +29,22 @@
 #define KIND_B 4
 #define KIND_L 5
 #define KINDV CAT2(KIND_, KIND)
+#if KINDV == KIND_H
+#include "C11_traits_H.h"
+#elif KINDV == KIND_F
+#include "C11_traits_F.h"
+#elif KINDV == KIND_C
+#include "C11_traits_C.h"
+#elif KINDV == KIND_B
+#include "C11_traits_B.h"
+#else
+#include "C11_traits_L.h"
+#endif
 static void in_data(u32* d, int n){ for (int i = 0; i < n; i++) d[i] = in_any32(); }
 void h_traits(void){
-  u64 shape[3] = {1, 1, 1}, dim = 2, t[9], rt[6] = {0}, ex[4] = {0}, maxidx = 0; u32 data[CELLS], p[16] = {0};
-  for (int i = 0; i < 9; i++) t[i] = NA;
+  u64 shape[3] = {1, 1, 1}, dim = 2, t[9] = {NA, NA, NA, NA, NA, NA, NA, NA, NA}, rt[6] = {0}, ex[4] = {0}, maxidx = 0; u32 data[CELLS], p[16] = {0};
 #if KINDV == KIND_H
-  shape[0] = in_u64(1, MAXE); shape[1] = in_u64(1, MAXE);
+  shape[0] = in_u64(1, MAXE); shape[1] = in_u64(1, MAXE); ASSUME(shape[0] * shape[1] <= CELLS);   /* MAXE = 16: every shape the type admits */
 #elif KINDV == KIND_L
   shape[0] = in_u64(1, 4); shape[1] = in_u64(1, 4);                 /* everything the clipped type admits: extents <= 4 */
 #elif KINDV == KIND_B
